@@ -32,7 +32,9 @@ ASSUMPTIONS = [
     'no randomised tail: only the bounded exhaustive part of the quantifier is decided',
 ]
 
-MECHS = {'fallback': None, 'fallback_timed': None, 'select': 'Select', 'poll': 'Poll', 'epoll': 'EPoll',
+MECHS = {'fallback': None, 'fallback_timed': None,
+         # a second, idle manager runs in a thread of its own next to the one that is fired at (nothing may be shared between them)
+         'fallback_two': None, 'select': 'Select', 'poll': 'Poll', 'epoll': 'EPoll',
          # "ctrl" variants: a near timer bounds every idle wait (1/8 s) and that wait may expire (environment choice); scheduling
          # points are restricted to the wake-up protocol itself (control pipe, resume, time-left budget), which makes three
          # deviations affordable
@@ -124,12 +126,12 @@ def execute(case, prefix):
     state = {'collision': False, 'in_handshake': False}
 
     def observer(ex_, me, where, lineno):
-        if me.idx == 0:
+        if me.name == 'loop':
             if where in ('_on_generate_events', '_generate_events'):
                 state['in_handshake'] = True
             elif where == 'tick':
                 state['in_handshake'] = False
-        elif where == 'append' and (state['in_handshake'] or ex_.threads[0].status == 'blocked'):
+        elif where == 'append' and me.name != 'other' and (state['in_handshake'] or [t for t in ex_.threads if t.name == 'loop'][0].status == 'blocked'):
             state['collision'] = True
     ex.observer = observer
 
@@ -147,6 +149,10 @@ def execute(case, prefix):
                 target.fire(e)
                 log.append(('ret', tid, i))
         return body
+    other = None
+    if case.mech == 'fallback_two':
+        other = BaseComponent()
+        ex.add_thread('other', other.run)
     ex.add_thread('loop', loop)
     for t in range(case.F):
         ex.add_thread('f%d' % t, firer(t), sym='firer' if sym else None)
@@ -156,6 +162,8 @@ def execute(case, prefix):
     def on_release(ex_):
         snap['log'] = list(log)
         root.stop()
+        if other is not None:
+            other.stop()
     ex.run(on_release)
     if poller is not None:
         for fd in (getattr(poller, '_ctrl_recv', None), getattr(poller, '_ctrl_send', None)):
@@ -268,9 +276,9 @@ def compress(choices):
 
 def plan(tier):
     if tier == 'quick':
-        return [('fallback', 1, 2, 2), ('fallback_timed', 1, 2, 1), ('select', 1, 2, 1), ('poll', 1, 2, 1), ('epoll', 1, 2, 1), ('fallback', 2, 1, 1),
+        return [('fallback_two', 1, 1, 1), ('fallback', 1, 2, 2), ('fallback_timed', 1, 2, 1), ('select', 1, 2, 1), ('poll', 1, 2, 1), ('epoll', 1, 2, 1), ('fallback', 2, 1, 1),
                 ('epoll_ctrl', 3, 1, 3)]
-    return [('fallback', 1, 2, 3), ('fallback_timed', 1, 2, 2), ('select', 1, 2, 2), ('poll', 1, 2, 2), ('epoll', 1, 2, 2), ('fallback', 2, 2, 2),
+    return [('fallback_two', 1, 2, 2), ('fallback', 1, 2, 3), ('fallback_timed', 1, 2, 2), ('select', 1, 2, 2), ('poll', 1, 2, 2), ('epoll', 1, 2, 2), ('fallback', 2, 2, 2),
             ('epoll', 2, 1, 2), ('select_ctrl', 3, 1, 3), ('poll_ctrl', 3, 1, 3), ('epoll_ctrl', 3, 1, 3), ('epoll_ctrl', 1, 3, 3)]
 
 
